@@ -1,0 +1,30 @@
+//go:build verif
+
+// Contracts for the deductive verifier in /verif (comment-only file; see /verif/DESIGN.md).
+package produce
+
+//@ property C01 C04
+
+// Wire layout of the Produce API (Kafka protocol definition, ProduceRequest / ProduceResponse versions 0 to 8). The
+// encoders and decoders of these types are compiled from the struct tags; the layouts below are what a broker sends and
+// expects. In particular the per-partition error code is on the wire in every version: a refused batch is never decoded
+// as acknowledged.
+//@ wire Request
+//@   layout v0..v2 Acks int16, Timeout int32, Topics []RequestTopic
+//@   layout v3..v8 TransactionalID string?, Acks int16, Timeout int32, Topics []RequestTopic
+//@ wire RequestTopic
+//@   layout v0..v8 Topic string, Partitions []RequestPartition
+//@ wire RequestPartition
+//@   layout v0..v8 Partition int32, RecordSet protocol.RecordSet
+//@ wire Response
+//@   layout v0 Topics []ResponseTopic
+//@   layout v1..v8 Topics []ResponseTopic, ThrottleTimeMs int32
+//@ wire ResponseTopic
+//@   layout v0..v8 Topic string, Partitions []ResponsePartition
+//@ wire ResponsePartition
+//@   layout v0..v1 Partition int32, ErrorCode int16, BaseOffset int64
+//@   layout v2..v4 Partition int32, ErrorCode int16, BaseOffset int64, LogAppendTime int64
+//@   layout v5..v7 Partition int32, ErrorCode int16, BaseOffset int64, LogAppendTime int64, LogStartOffset int64
+//@   layout v8 Partition int32, ErrorCode int16, BaseOffset int64, LogAppendTime int64, LogStartOffset int64, RecordErrors []ResponseError, ErrorMessage string?
+//@ wire ResponseError
+//@   layout v8 BatchIndex int32, BatchIndexErrorMessage string?
